@@ -332,9 +332,13 @@ func (p *printer) node(n *Node, indent, prefix, comma string, out *[]line) {
 		return
 	}
 	if isContainer {
-		txt := "{}"
+		inner := ""
+		if p.lay.Pad == 2 {
+			inner = []string{"", "", " ", "  ", "\t"}[p.next(5)]
+		}
+		txt := "{" + inner + "}"
 		if n.Kind == "array" {
-			txt = "[]"
+			txt = "[" + inner + "]"
 		}
 		emit(indent + prefix + txt + comma + p.annotation(n))
 		return
